@@ -628,6 +628,10 @@ class Program(object):
                     raise NotFoldable("opaque argument")
                 return PureEval(self, target.module).call(target.node, args, kwargs)
             raise NotFoldable("call %s" % unparse(node))
+        if isinstance(node, (ast.ListComp, ast.SetComp, ast.DictComp)) and not env:
+            # a module-level comprehension over constants is a constant of the source
+            from sa.pureeval import PureEval
+            return PureEval(self, module).ev(node, {})
         raise NotFoldable(type(node).__name__)
 
     def resolve_function_name(self, module, name):
